@@ -494,7 +494,9 @@ def run_property(prop, tier, seed, verbose=False, write_evidence=True):
     have = {}
     for v in normal:
         have[v.oid] = have.get(v.oid, 0) + 1
-    missing = [o for o in ledger.get("obligations", {}) if o not in have]
+    # ('no-exception:' obligations say that a raising path is infeasible; whether such a path is pruned by the feasibility
+    #  check or kept and then discharged depends on solver timing, so their presence is not required)
+    missing = [o for o in ledger.get("obligations", {}) if o not in have and "/no-exception:" not in o]
     if missing and not code_changed:
         errors.append("obligations of the ledger no longer generated: %s" % missing[:5])
     prov_bad = [f for f in run.functions if not (f["file_matches"] and f["source_matches"])]
